@@ -1,6 +1,6 @@
 """C18 -- file I/O (DESIGN 5/C18): real io.c against nondeterministic libpng / stdio stubs."""
 BOUNDS = {
- "quick": "PNG round trip: A symbolic, ncols in every residue class mod 8 (1..16) and {63,64,65,127,128,129,130}, nrows in {1,2}, compression level symbolic; malformed PNG: every bit depth {1,2,4,8,16} x colour type {0,2,3,4,6} (valid IHDR combinations) x interlace, arbitrary row bytes of the contract length, create/read failures, for widths {1,8,9,64,70}; JCF: arbitrary p / nonzero fields and <= 4 arbitrary index tokens for 1x1, 2x3, 3x70; mzd_from_str: arbitrary characters 2x3, 3x70, 1x64",
+ "quick": "PNG round trip: A symbolic, ncols 1..72 (every residue class mod 8 and mod 64) and {127,128,129,130}, nrows in {1,2}, compression level symbolic; malformed PNG: every bit depth {1,2,4,8,16} x colour type {0,2,3,4,6} (valid IHDR combinations) x interlace, arbitrary row bytes of the contract length, create/read failures, for widths {1,8,9,64,70}; JCF: arbitrary p / nonzero fields and <= 4 arbitrary index tokens for 1x1, 2x3, 3x70; mzd_from_str: arbitrary characters 2x3, 3x70, 1x64",
  "thorough": "round trip up to 3 rows and all widths 1..130; JCF 6 tokens; bad header return values",
 }
 OUTSIDE = "real file bytes, zlib / libpng internals (their documented contracts are the stubs), truncated-file behaviour inside libpng (modelled as 'png_read_info may end the process')"
@@ -10,7 +10,7 @@ ASSUMPTIONS = ["libpng contract: png_read_row writes exactly ceil(width*bit_dept
 def plan(tier, seed):
     T = tier == "thorough"
     qs = []
-    widths = list(range(1, 17)) + [63, 64, 65, 127, 128, 129, 130]
+    widths = list(range(1, 73)) + [127, 128, 129, 130]
     if T: widths = list(range(1, 131))
     for w in widths:
         for h in ((1, 2) if not T else (1, 3)):
